@@ -190,6 +190,25 @@ class GhostList:
 # loop contract
 
 
+class _AliasView:
+    """the loop's locals under the contract's names (see LoopSpec._view)"""
+
+    def __init__(self, L, alias):
+        self.L, self.alias = L, alias
+
+    def __getitem__(self, k):
+        return self.L[self.alias.get(k, k)]
+
+    def __setitem__(self, k, v):
+        self.L[self.alias.get(k, k)] = v
+
+    def __contains__(self, k):
+        return self.alias.get(k, k) in self.L
+
+    def get(self, k, d=None):
+        return self.L.get(self.alias.get(k, k), d)
+
+
 class LoopSpec:
     """contract of one loop.  Subclass or instantiate with functions; `G` is per-path ghost state set by the unit."""
 
@@ -204,13 +223,20 @@ class LoopSpec:
         self.it = None
         self._v0 = None
         self.tag = name
+        self.alias = {}
+
+    # -- renamed locals: a contract names the locals of the loop; when exactly one declared name is gone from the function and
+    # exactly one undeclared local is read by the loop (and it can play the role: a heap name must be havoc-able), the contract
+    # is applied to that local (recorded in the evidence notes as loop-alias).  Anything less clear-cut stays Unsupported.
+    def _view(self, L):
+        return _AliasView(L, self.alias) if self.alias else L
 
     # -- what the contract says
     def invariant(self, L, k):
-        return True if self._inv is None else self._inv(self, L, k)
+        return True if self._inv is None else self._inv(self, self._view(L), k)
 
     def variant(self, L, k):
-        return None if self._var is None else self._var(self, L, k)
+        return None if self._var is None else self._var(self, self._view(L), k)
 
     # -- hooks called by the transformed loop
     def for_iter(self, iterable):
@@ -222,10 +248,17 @@ class LoopSpec:
 
     def enter(self, L, loaded):
         declared = set(self.havoc_names) | set(self.heap) | set(self.const)
+        self.alias = {}
         missing = sorted(n for n in loaded if n in L and n not in declared and not n.startswith("__pyvc"))
+        gone = sorted(n for n in declared if n not in L and n not in loaded)
+        if len(missing) == 1 and len(gone) == 1 and (gone[0] not in self.heap or hasattr(L[missing[0]], "havoc")):
+            self.alias = {gone[0]: missing[0]}
+            ctx().notes.append("loop-alias:%s:%s->%s" % (self.name, gone[0], missing[0]))
+            missing = []
         if missing:
             raise Unsupported("loop %s reads locals %s that its contract does not classify (havoc / heap / const)" % (self.name, missing))
         for n in self.heap:
+            n = self.alias.get(n, n)
             if n in L and not hasattr(L[n], "havoc"):
                 raise Unsupported("loop %s: heap name %r is bound to %s, which cannot be havocked" % (self.name, n, type(L[n]).__name__))
         self.entry = dict(L)
@@ -234,8 +267,11 @@ class LoopSpec:
 
     def havoc(self, name, L, assigned=True):
         """value of local `name` in the arbitrary loop state; `assigned`: the loop body assigns the name"""
+        actual = name
+        name = {v: k for k, v in self.alias.items()}.get(name, name)         # the contract's name for this local
         if name in self.havoc_names:
-            return self.havoc_names[name](self, L)
+            return self.havoc_names[name](self, self._view(L))
+        L = {name: L[actual]} if (actual != name and actual in L) else L
         if not assigned:
             # only read (or mutated in place) by the loop: unchanged binding; enter() has checked that it is declared heap/const
             return L[name] if name in L else Poison(name)
@@ -247,12 +283,13 @@ class LoopSpec:
 
     def assume(self, L):
         for n in self.heap:
+            n = self.alias.get(n, n)
             if n in L:
                 L[n].havoc(self.tag)
         if self.it is not None:
             self.it.havoc()
         if self._at_havoc is not None:
-            self._at_havoc(self, L)       # contract-specific havoc of object fields the loop writes (e.g. self.x = GhostList)
+            self._at_havoc(self, self._view(L))       # contract-specific havoc of object fields the loop writes (e.g. self.x = GhostList)
         ctx().assume(_t(self.invariant(L, self._k())))
 
     def iteration(self, L):
@@ -263,11 +300,11 @@ class LoopSpec:
             prove("%s: variant is non-negative whenever the loop continues" % self.name, v >= 0)
             self._v0 = v
         if self._at_iteration is not None:
-            self._at_iteration(self, L, self._k())
+            self._at_iteration(self, self._view(L), self._k())
 
     def back(self, L):
         if self._at_back is not None:
-            self._at_back(self, L, self._k())
+            self._at_back(self, self._view(L), self._k())
         prove("%s: invariant is preserved by an arbitrary iteration" % self.name, self.invariant(L, self._k()))
         if self.it is None:
             prove("%s: variant strictly decreases" % self.name, self.variant(L, None) < self._v0)
